@@ -44,7 +44,7 @@ def lemmas(tier):
         )
     )
     for k, name in enumerate(("Position", "Range", "Location")):
-        for kind, kn in enumerate(("int", "str", "tuple of the same numbers", "None", "instance of another class (1)", "instance of another class (2)", "list of the same numbers")):
+        for kind, kn in enumerate(("int", "str", "tuple of the same numbers", "None", "instance of another class (1)", "instance of another class (2)", "list of the same numbers", "unrelated object with the same attribute names and values", "another protocol class with overlapping attribute names")):
             out.append(
                 xh.Lemma(
                     "unrel_%d_%d" % (k, kind),
